@@ -14,14 +14,6 @@ import (
 
 // EncodeJSONFile 编码 JSON 文件
 func EncodeJSONFile(path string, obj interface{}) error {
-	f, err := os.OpenFile(path, os.O_CREATE|os.O_TRUNC|os.O_WRONLY, os.ModePerm)
-	if err != nil {
-		return err
-	}
-
-	defer f.Close()
-	verifhook.Crash("encodejson.opened")
-
 	var formatted bytes.Buffer
 	body, err := json.Marshal(obj)
 	if err != nil {
@@ -32,14 +24,33 @@ func EncodeJSONFile(path string, obj interface{}) error {
 		return err
 	}
 
+	// 先完整写入并落盘临时文件，再原子替换目标文件：
+	// 进程在任意时刻退出，目标文件要么是旧内容要么是新内容，不会被截断
+	tmp := path + ".tmp"
+	f, err := os.OpenFile(tmp, os.O_CREATE|os.O_TRUNC|os.O_WRONLY, os.ModePerm)
+	if err != nil {
+		return err
+	}
+	verifhook.Crash("encodejson.opened")
+
 	if _, err := f.Write(formatted.Bytes()); err != nil {
+		f.Close()
 		return err
 	}
 	verifhook.Crash("encodejson.written")
 	if err := f.Sync(); err != nil {
+		f.Close()
 		return err
 	}
 	verifhook.Crash("encodejson.synced")
+	if err := f.Close(); err != nil {
+		return err
+	}
+	verifhook.Crash("encodejson.closed")
 
+	if err := os.Rename(tmp, path); err != nil {
+		return err
+	}
+	verifhook.Crash("encodejson.renamed")
 	return nil
 }
